@@ -492,12 +492,20 @@ func (i *interpreter) lockEvent(kind string, p *value) {
 	}
 }
 
+// sync.Once: the done flag is kept in the object itself (its atomic.Uint32 field), so
+// that it shares the lifetime of the object - objects owned by packages that are not
+// re-initialised per path (e.g. html's escaper) must stay "done" across paths.
 func ext۰sync۰Once۰Do(fr *frame, a []value) value {
 	p := a[0].(*value)
-	if fr.i.onceDone[p] {
+	if p == nil {
+		panic(fr.i.rtPanic("invalid memory address or nil pointer dereference"))
+	}
+	once := (*p).(structure)
+	done := once[0].(structure) // atomic.Uint32{_ noCopy; v uint32}
+	if done[len(done)-1].(uint32) != 0 {
 		return nil
 	}
-	fr.i.onceDone[p] = true
+	defer func() { done[len(done)-1] = uint32(1) }()
 	call(fr.i, fr, token.NoPos, a[1], nil)
 	return nil
 }
